@@ -225,3 +225,18 @@ W int w_pqs0(const unsigned char* in, unsigned n, unsigned char* out, unsigned* 
   return int(c);
 }
 W void w_var_setbool(VariantData* v, unsigned b) { v->setBoolean(b != 0); }
+// ---- parseStringValue into a document that already holds one string (de-duplication through StringBuilder::save)
+struct DedupOut { unsigned code, len, shared, pre_refs, pre_len, overflowed; unsigned char bytes[8]; };
+W void w_psv_pre(const unsigned char* in, unsigned n, const char* pre, unsigned prelen, DedupOut* o) {
+  SETUP(0)
+  StringNode* p = rm.saveString(adaptString(pre, prelen));
+  VariantData v;
+  Code c = (d.*get(T_psv()))(v);
+  o->code = unsigned(c); o->len = 0; o->shared = 0; o->overflowed = rm.overflowed();
+  if (c == DeserializationError::Ok) {
+    JsonString s = v.asString(); o->len = unsigned(s.size());
+    for (unsigned i = 0; i < 8 && i < s.size(); i++) o->bytes[i] = (unsigned char)s.c_str()[i];
+    o->shared = p && s.c_str() == p->data;
+  }
+  o->pre_refs = p ? unsigned(p->references) : 0; o->pre_len = p ? unsigned(p->length) : 0;
+}
